@@ -112,6 +112,42 @@ func Load(o Options) (*Program, error) {
 			p.SSAPkg[r.PkgPath].Build()
 		}
 	}
+	// ordered local variable names per top-level function (for rename-robust terms)
+	for _, r := range pkgs {
+		if r.TypesInfo == nil {
+			continue
+		}
+		for _, f := range r.Syntax {
+			for _, d := range f.Decls {
+				fd, ok := d.(*ast.FuncDecl)
+				if !ok || fd.Body == nil {
+					continue
+				}
+				obj, _ := r.TypesInfo.Defs[fd.Name].(*types.Func)
+				if obj == nil {
+					continue
+				}
+				sf := p.SSA.FuncValue(obj)
+				if sf == nil {
+					continue
+				}
+				var names []string
+				seen := map[string]bool{}
+				ast.Inspect(fd.Body, func(n ast.Node) bool {
+					id, ok := n.(*ast.Ident)
+					if !ok {
+						return true
+					}
+					if v, ok := r.TypesInfo.Defs[id].(*types.Var); ok && v != nil && !v.IsField() && id.Name != "_" && !seen[id.Name] {
+						seen[id.Name] = true
+						names = append(names, id.Name)
+					}
+					return true
+				})
+				facts.CurrentLocals[facts.FuncName(sf)] = names
+			}
+		}
+	}
 	for _, r := range pkgs {
 		for _, f := range r.Syntax {
 			ast.Inspect(f, func(n ast.Node) bool {
